@@ -8,6 +8,9 @@ import (
 
 	"github.com/wmnsk/go-pfcp/ie"
 	"github.com/wmnsk/go-pfcp/message"
+	"google.golang.org/grpc"
+	"google.golang.org/grpc/connectivity"
+	"google.golang.org/grpc/credentials/insecure"
 )
 
 // C12 — association, heartbeat and retransmission contract (sequential logic).
@@ -293,4 +296,67 @@ func H_C12_hbmonitor() {
 	vAssert("peer-declared-dead:sessions-removed", len(e.pc.store.GetAllSessions()) == 0)
 	vAssert("peer-declared-dead:association-reported-done", len(e.done) == 1)
 	vCover("hbmonitor")
+}
+
+// vConnInState returns a gRPC channel in the given connectivity state. Under
+// the engine GetState is overridden on a zero ClientConn; natively a real
+// channel is brought into that state (CONNECTING and TRANSIENT_FAILURE are one
+// channel to a closed loopback port that moves between the two).
+var vConnState connectivity.State
+
+func vConnInState(st connectivity.State) *grpc.ClientConn {
+	if vInEngine() {
+		vConnState = st
+		vOverride("(*google.golang.org/grpc.ClientConn).GetState", func(c *grpc.ClientConn) connectivity.State { return vConnState })
+		return new(grpc.ClientConn)
+	}
+	switch st {
+	case connectivity.Ready:
+		return vNativeReadyConn()
+	case connectivity.Idle:
+		c, _ := grpc.NewClient("127.0.0.1:1", grpc.WithTransportCredentials(insecure.NewCredentials()))
+		return c // never asked to connect
+	case connectivity.Shutdown:
+		c, _ := grpc.NewClient("127.0.0.1:1", grpc.WithTransportCredentials(insecure.NewCredentials()))
+		_ = c.Close()
+		return c
+	default:
+		c, _ := grpc.NewClient("127.0.0.1:1", grpc.WithTransportCredentials(insecure.NewCredentials()))
+		c.Connect() // nobody listens there
+		return c
+	}
+}
+
+// H_C12_gate: the connectivity gate of BOTH real plug-ins behind the real
+// Association Setup handler: the association is accepted only while the
+// datapath's gRPC channel is READY (not while it is idle, still connecting,
+// failing or shut down; for UP4 also not before the pipeline was initialised).
+func H_C12_gate() {
+	st := []connectivity.State{connectivity.Idle, connectivity.Connecting, connectivity.Ready, connectivity.TransientFailure, connectivity.Shutdown}[vChoose("channel_state", 5)]
+	conn := vConnInState(st)
+	e := vNewEnv(false)
+	e.u.enableHBTimer = false
+	want := st == connectivity.Ready
+	if vBool("p4") {
+		flag := vBool("up4_initialised")
+		e.u.datapath = &UP4{connected: flag, p4client: &P4rtClient{conn: conn}}
+		want = want && flag
+		vTag("up4")
+	} else {
+		e.u.datapath = &bess{conn: conn}
+		vTag("bess")
+	}
+	vTag(st.String())
+	seq := vU32("seq") & 0xffffff
+	e.vSend(message.NewAssociationSetupRequest(seq, ie.NewNodeID("", "", "cp9.test"), ie.NewRecoveryTimeStamp(vTS)))
+	r := e.vExpectReply("as", 0, message.MsgTypeAssociationSetupResponse, seq).(*message.AssociationSetupResponse)
+	c := vCauseOf(r.Cause)
+	vObserve("gate", c)
+	vAssert("gate:association-accepted-only-while-the-datapath-channel-is-ready", (c == ie.CauseRequestAccepted) == want)
+	vAssert("gate:refused-association-is-not-recorded", want || e.pc.nodeID.remote == "cp.test")
+	if want {
+		vCover("gate-open")
+	} else {
+		vCover("gate-closed")
+	}
 }
